@@ -11,7 +11,8 @@
 // Plugin ids are creation ordinals (the runner's own pointer plugin takes one too); name a0 is DEF_PLUGIN_SET_POINTER.
 // Observation: per test  ":t <failed> <npre> ids.. <npost> ids.. <pool[0..39]>"  where the id lists leave out the plugins
 // an action of that very test named (whether those were installed / enabled "for that test" the property does not say);
-// per :rm/:reset and after every :run / :runner  ":c <n> ids.."  (after :runner: the plugins not named a0).
+// per :rm/:reset and after every :run / :runner  ":c <n> ids.."  (after :runner: the plugins not named a0; an id ffff in
+// front if a pool pointer changed between the last test's post actions and the return of the run).
 #include <stdexcept>
 #include <map>
 #include <set>
@@ -41,6 +42,7 @@ static std::vector<unsigned long long> gNames;                     // by id
 static std::map<TestPlugin*, int> gIds;
 static std::set<int> gNamed;                                       // ids the actions of the current test named
 static std::vector<std::string> gItems;                            // observation items of the tests of the current run
+static void* gPoolAfterTest[POOL];                                  // the pool as the last test's post actions left it
 
 static std::string pname(unsigned long long n) { return n == RUNNER_NAME ? std::string(DEF_PLUGIN_SET_POINTER) : "p" + hx(n); }
 static void doAct(const Act& a);
@@ -98,9 +100,10 @@ static void doAct(const Act& a)
         gReg->resetPlugins();
     }
 }
-static std::string chainItem(bool withoutRunnerName)
+static std::string chainItem(bool withoutRunnerName, bool poolMoved = false)
 {
     std::vector<int> c; int guard = 0;
+    if (poolMoved) c.push_back(0xffff);        // a pointer changed between the last test's post actions and the end of the run: the oracle rejects
     for (TestPlugin* p = gReg->getFirstPlugin(); p && p != NullTestPlugin::instance() && guard < 1000; p = p->getNext(), guard++) {
         int id = gIds.count(p) ? gIds[p] : 0xffff;                 // 0xffff: not an object of this session (never a plugin id)
         if (withoutRunnerName && id != 0xffff && gNames[(size_t)id] == RUNNER_NAME) continue;
@@ -177,7 +180,7 @@ public:
         for (size_t i = 0; i < pre2.size(); i++) s += " " + hx((unsigned)pre2[i]);
         s += " " + hx(post2.size());
         for (size_t i = 0; i < post2.size(); i++) s += " " + hx((unsigned)post2[i]);
-        for (int i = 0; i < POOL; i++) s += " " + hx((unsigned long long)(uintptr_t)pool[i]);
+        for (int i = 0; i < POOL; i++) { s += " " + hx((unsigned long long)(uintptr_t)pool[i]); gPoolAfterTest[i] = pool[i]; }
         gItems.push_back(s);
     }
 };
@@ -258,6 +261,7 @@ int main()
                 for (int i = 0; i < ntests; i++) { shells.push_back(new ScriptedShell); parseTest(t, shells.back()->script_); }
                 for (int i = ntests - 1; i >= 0; i--) reg.addTest(shells[(size_t)i]);      // addTest prepends
                 gLogN = 0; gItems.clear();
+                for (int i = 0; i < POOL; i++) gPoolAfterTest[i] = pool[i];
                 if (k == "runner") {
                     // the runner's pointer plugin is the next plugin object created: it takes an id
                     gRunnerId = (int)gObjs.size(); addObj(0, RUNNER_NAME);
@@ -280,7 +284,9 @@ int main()
                 }
                 for (int i = 0; i < ntests; i++) reg.unDoLastAddTest();
                 for (size_t i = 0; i < gItems.size(); i++) out.push_back(gItems[i]);
-                if (k != "test") out.push_back(chainItem(k == "runner"));
+                bool moved = false;             // after the run every pointer still holds what it held after the last test
+                for (int i = 0; i < POOL; i++) if (pool[i] != gPoolAfterTest[i]) moved = true;
+                if (k != "test") out.push_back(chainItem(k == "runner", moved));
                 for (int i = 0; i < ntests; i++) delete shells[(size_t)i];
             }
             else { fprintf(stderr, "harness: bad op %s\n", k.c_str()); exit(3); }
